@@ -44,7 +44,9 @@ Applies(pre, cmd) == cmd.app /\ ((pre.kind = "cas" /\ cmd.sw = "cas") \/ (pre.ki
                      /\ ~(cmd.tool = "asm" /\ ~cmd.named) /\ ~(cmd.tool = "util" /\ cmd.sw = "bin" /\ cmd.srcn # 1) /\ cmd.new # <<>>
 AppendHappens(pre, cmd, post, Fits(_)) == (Applies(pre, cmd) /\ (cmd.sw = "dsk" => Fits(pre.files \o cmd.new))) => post # pre
 \* C15: a disk never holds more than fits; a file that does not fit leaves the host file as it was
-CapacityRespected(pre, cmd, post, Fits(_)) == (post.kind = "dsk" => Fits(post.files)) /\ ((cmd.sw = "dsk" /\ pre.kind = "dsk" /\ ~Fits(pre.files \o cmd.new)) => post = pre)
+CapacityRespected(pre, cmd, post, Fits(_)) ==
+  /\ (post.kind = "dsk" => Fits(post.files))
+  /\ ((cmd.sw = "dsk" /\ pre.kind \in {"dsk", "absent", "empty"} /\ ~Fits((IF pre.kind = "dsk" THEN pre.files ELSE <<>>) \o cmd.new)) => post = pre)
 \* listing is read-only (beyond the listed properties: the listing command of file_util never changes the image it lists)
 ReadOnly(pre, cmd, post) == cmd.sw = "list" => post = pre
 \* C11 / C16: a new path gets exactly the new files
